@@ -203,6 +203,15 @@ static void check_stream(Ctx &c, T v)
         VF_COUNT("ops");
         cmp_text(c, "string_stream<<(appended)", s2.to_string(), "ab" + want + want, k,
                  strf("string_stream << \"ab\" << v << v with v=(%s)%s", TI<T>::name(), i128s(v).c_str()));
+        // appended when the stream is exactly at / next to a capacity boundary (in-object 256, first heap block 512)
+        for (size_t pre : {size_t(255), size_t(256), size_t(257), size_t(511), size_t(512)}) {
+            ST::string_stream s3;
+            s3.append_char('p', pre);
+            s3 << v << "|";
+            VF_COUNT("ops");
+            cmp_text(c, "string_stream<<(at-capacity-boundary)", s3.to_string(), std::string(pre, 'p') + want + "|", k,
+                     strf("string_stream holding %zu bytes << (%s)%s << \"|\"", pre, TI<T>::name(), i128s(v).c_str()));
+        }
     });
     vf::count_dyn(std::string("out:stream:") + vf::outkind_name(o.kind));
     if (!o.ok()) c.fail(strf("string_stream<<:%s:%s", vf::outkind_name(o.kind), k.c_str()), o.str());
@@ -457,6 +466,21 @@ static void check_parse(Ctx &c, const std::string &bytes, const std::vector<int>
                 __int128 got2 = P.lib(text, base, nullptr);
                 VF_ADD("ops", 2);
                 VF_COUNT("validated");
+                // a result object that already holds the flags of an earlier conversion (a full match, and a failure)
+                {
+                    static const ST::string good = ST_LITERAL("17"), junk = ST_LITERAL("zz 1");
+                    ST::conversion_result ra, rb;
+                    (void)P.lib(good, 10, &ra);
+                    (void)P.lib(junk, 10, &rb);
+                    __int128 ga = P.lib(text, base, &ra), gb = P.lib(text, base, &rb);
+                    VF_ADD("ops", 2);
+                    bool wok = bytes.empty() ? false : consumed > 0, wfull = bytes.empty() ? true : consumed == bytes.size();
+                    if (ga != got || gb != got || ra.ok() != wok || rb.ok() != wok || ra.full_match() != wfull || rb.full_match() != wfull)
+                        c.fail(strf("parse:%s:reused-result-object:%s", P.name, bytes.empty() ? "empty" : consumed == 0 ? "nothing-consumed" : wfull ? "all-consumed" : "partly-consumed"),
+                               strf("%s(result, %d) on %s with a result object used before: after a full match ok=%d full_match=%d, after a failure ok=%d full_match=%d; "
+                                    "expected ok=%d full_match=%d",
+                                    P.name, base, vf::vis(bytes).c_str(), ra.ok(), ra.full_match(), rb.ok(), rb.full_match(), wok, wfull));
+                }
                 const char *tclass = bytes.empty() ? "empty" : consumed == 0 ? "nothing-consumed" : want_full ? "all-consumed" : "partly-consumed";
                 if (got != want || got2 != want)
                     c.fail(strf("parse:%s:value:%s%s", P.name, tclass, range ? ":out-of-range" : ""),
